@@ -3,13 +3,16 @@ import IofloModel.Drv.RatProto
 /-!
 driver for the need model (engine `need`).
 
-values:  `N` None | `B0` `B1` bool | `Q<p>/<q>` number | `S<cp>,<cp>,…` string (`S` = empty)
+every request starts with `q` (exact rationals, numbers `Q<p>/<q>`) or `f` (the same definitions at Lean Float =
+IEEE binary64, numbers `X<16 hex digits>` = bit pattern)
+values:  `N` None | `B0` `B1` bool | `Q<p>/<q>` / `X<hex16>` number | `S<cp>,<cp>,…` string (`S` = empty)
 cmp:     `==` `!=` `<` `<=` `>=` `>`; any other token is an unknown comparison string
 
     check <state> <cmp> <goal> <tol>          → T | F | E TypeError
     truthy <val>                              → T | F
     all <env> <clauses>                       → T | F | E TypeError     (one evaluation of a need list)
-    frame <period p/q> <limit> <env> <clauses>→ hit <j> | miss | E TypeError
+    frame <period> <limit> <env> <clauses>    → hit <j> | miss | E TypeError
+    guarded <env> <guard clauses> <clauses>   → blocked | hit | miss | E TypeError   (`let me if guard` + `go … if clauses`)
 
 env:     `-` or `k=val;k=val;…`
 clauses: `-` or `;`-separated, each `[!]b:<k>` or `[!]c:<k>:<cmp>:<L<val>|R<k>>:<tol>`
@@ -23,50 +26,72 @@ def parseCps? (s : String) : Option (List Nat) :=
     | some n, some l => some (n :: l)
     | _, _ => none) (some [])
 
-def parseVal? (s : String) : Option PyVal :=
+class Codec (τ : Type) where
+  tag : Char
+  parse : String → Option τ
+
+instance : Codec Rat where
+  tag := 'Q'
+  parse := parseRat?
+
+def parseHex64? (s : String) : Option Nat :=
+  if s.length ≠ 16 then none else
+  s.toList.foldl (fun acc c => match acc, hexDigit? c with
+    | some n, some d => some (n * 16 + d)
+    | _, _ => none) (some 0)
+
+instance : Codec Float where
+  tag := 'X'
+  parse s := (parseHex64? s).map (fun n => Float.ofBits (UInt64.ofNat n))
+
+section generic
+variable {τ : Type} [Add τ] [Sub τ] [Neg τ] [Mul τ] [LT τ] [LE τ] [DecidableLT τ] [DecidableLE τ] [BEq τ]
+  [OfNat τ 0] [OfNat τ 1] [Codec τ]
+
+def parseVal? (s : String) : Option (PyVal τ) :=
   match s.toList with
   | ['N'] => some .none
   | ['B', '0'] => some (.bool false)
   | ['B', '1'] => some (.bool true)
-  | 'Q' :: rest => (parseRat? (String.ofList rest)).map .num
   | 'S' :: rest => (parseCps? (String.ofList rest)).map .str
+  | c :: rest => if c == Codec.tag τ then (Codec.parse (String.ofList rest) : Option τ).map .num else none
   | _ => none
 
 def parseCmp (s : String) : Cmp :=
   if s == "==" then .eq else if s == "!=" then .ne else if s == "<" then .lt
   else if s == "<=" then .le else if s == ">=" then .ge else if s == ">" then .gt else .other
 
-def parseEnv? (s : String) : Option Env :=
+def parseEnv? (s : String) : Option (Env τ) :=
   if s == "-" then some [] else
   (s.splitOn ";").foldr (fun item acc =>
     match item.splitOn "=", acc with
     | [k, v], some l =>
-      match parseNat? k, parseVal? v with
+      match parseNat? k, parseVal? (τ := τ) v with
       | some k, some v => some ((k, v) :: l)
       | _, _ => none
     | _, _ => none) (some [])
 
-def parseGoal? (s : String) : Option Goal :=
+def parseGoal? (s : String) : Option (Goal τ) :=
   match s.toList with
-  | 'L' :: rest => (parseVal? (String.ofList rest)).map .lit
+  | 'L' :: rest => (parseVal? (τ := τ) (String.ofList rest)).map .lit
   | 'R' :: rest => (parseNat? (String.ofList rest)).map .ref
   | _ => none
 
-def parseClause? (s : String) : Option Clause :=
+def parseClause? (s : String) : Option (Clause τ) :=
   let (neg, body) := match s.toList with
     | '!' :: rest => (true, String.ofList rest)
     | _ => (false, s)
   match body.splitOn ":" with
   | ["b", k] => (parseNat? k).map (fun k => ⟨neg, .boolean k⟩)
   | ["c", k, c, g, t] =>
-    match parseNat? k, parseGoal? g, parseVal? t with
+    match parseNat? k, parseGoal? (τ := τ) g, parseVal? (τ := τ) t with
     | some k, some g, some t => some ⟨neg, .compare k (parseCmp c) g t⟩
     | _, _, _ => none
   | _ => none
 
-def parseClauses? (s : String) : Option (List Clause) :=
+def parseClauses? (s : String) : Option (List (Clause τ)) :=
   if s == "-" then some [] else
-  (s.splitOn ";").foldr (fun item acc => match parseClause? item, acc with
+  (s.splitOn ";").foldr (fun item acc => match parseClause? (τ := τ) item, acc with
     | some c, some l => some (c :: l)
     | _, _ => none) (some [])
 
@@ -75,28 +100,44 @@ def showRes : Except Err Bool → String
   | .ok false => "F"
   | .error .typeError => "E TypeError"
 
-def step (_ : Unit) (line : String) : Unit × String :=
-  match words line with
+def run : List String → String
   | ["check", s, c, g, t] =>
-    match parseVal? s, parseVal? g, parseVal? t with
-    | some s, some g, some t => ((), showRes (check s (parseCmp c) g t))
-    | _, _, _ => ((), "bad-op")
+    match parseVal? (τ := τ) s, parseVal? (τ := τ) g, parseVal? (τ := τ) t with
+    | some s, some g, some t => showRes (check s (parseCmp c) g t)
+    | _, _, _ => "bad-op"
   | ["truthy", v] =>
-    match parseVal? v with
-    | some v => ((), if truthy v then "T" else "F")
-    | none => ((), "bad-op")
+    match parseVal? (τ := τ) v with
+    | some v => if truthy v then "T" else "F"
+    | none => "bad-op"
   | ["all", e, cs] =>
-    match parseEnv? e, parseClauses? cs with
-    | some e, some cs => ((), showRes (evalAll e cs))
-    | _, _ => ((), "bad-op")
+    match parseEnv? (τ := τ) e, parseClauses? (τ := τ) cs with
+    | some e, some cs => showRes (evalAll e cs)
+    | _, _ => "bad-op"
   | ["frame", p, l, e, cs] =>
-    match parseRat? p, parseNat? l, parseEnv? e, parseClauses? cs with
-    | some p, some l, some e, some cs =>
-      ((), match runFrame p l e cs with
+    match parseVal? (τ := τ) p, parseNat? l, parseEnv? (τ := τ) e, parseClauses? (τ := τ) cs with
+    | some (.num p), some l, some e, some cs =>
+      match runFrame p l e cs with
         | .hit j => "hit " ++ toString j
         | .miss => "miss"
-        | .raised .typeError => "E TypeError")
-    | _, _, _, _ => ((), "bad-op")
+        | .raised .typeError => "E TypeError"
+    | _, _, _, _ => "bad-op"
+  | ["guarded", e, g, cs] =>
+    match parseEnv? (τ := τ) e, parseClauses? (τ := τ) g, parseClauses? (τ := τ) cs with
+    | some e, some g, some cs =>
+      match runGuarded e g cs with
+        | .blocked => "blocked"
+        | .hit => "hit"
+        | .miss => "miss"
+        | .raised .typeError => "E TypeError"
+    | _, _, _ => "bad-op"
+  | _ => "bad-op"
+
+end generic
+
+def step (_ : Unit) (line : String) : Unit × String :=
+  match words line with
+  | "q" :: rest => ((), run (τ := Rat) rest)
+  | "f" :: rest => ((), run (τ := Float) rest)
   | _ => ((), "bad-op")
 
 end Ioflo.Drv.Need
